@@ -84,7 +84,10 @@ func c16Namer(c *core.Ctx) (sets [][]string, suspects []c16NamerLine, exact []c1
 	three := []string{"hlsl", "msl", "glsl"}
 	runs := []run{
 		{name: "design/all-targets", cfg: namerCfg(three, base, c.Pick(2, 3), c.Pick(3, 2), nil, false, all)},
-		{name: "design/helpers+case", cfg: namerCfg([]string{"hlsl", "msl"}, []string{"a", "_", "h", "k", "K"}, 2, c.Pick(2, 3), nil, false, all)},
+		{name: "design/helpers", cfg: namerCfg([]string{"hlsl", "msl"}, []string{"a", "_", "h", "k"}, 2, c.Pick(2, 3), nil, false, all)},
+		{name: "design/case", cfg: namerCfg([]string{"hlsl"}, []string{"a", "_", "k", "K", "1"}, 2, c.Pick(2, 3), nil, false, all)},
+		// non-ASCII letters: the escape u<hex>_ and the collapsing / trimming of the separators around it
+		{name: "design/nonascii", cfg: namerCfg(three, []string{"a", "_", "e", "u", "9"}, c.Pick(2, 3), 2, nil, false, all)},
 		// self-test: SelfTest (every named fault is detected by the invariant named with it) is printed by an ASSUME, and the
 		// state machine itself runs with one seeded fault, which TLC must report
 		{name: "selftest", spec: "NamerSelfMC", files: map[string][]byte{"NamerSelfMC.tla": []byte(namerSelfMC)},
@@ -92,8 +95,10 @@ func c16Namer(c *core.Ctx) (sets [][]string, suspects []c16NamerLine, exact []c1
 		// exports: interacting label sequences (target independent up to keywords: taken from the HLSL variant) ...
 		{name: "export/len3", cfg: namerCfgS([]string{"hlsl"}, base, 3, 2, nil, true, nil, 0), export: true},
 		{name: "export/calls3", cfg: namerCfgS([]string{"msl"}, []string{"a", "1", "_"}, 2, 3, nil, true, nil, 0), export: true},
+		{name: "export/nonascii1", cfg: namerCfgS([]string{"msl"}, []string{"a", "_", "e", "u", "9", "1"}, 3, 1, nil, true, nil, 0), export: true},
+		{name: "export/nonascii2", cfg: namerCfgS([]string{"msl"}, []string{"a", "_", "e"}, 2, 2, nil, true, nil, 0), export: true},
 		// ... and suspects: what the model of each backend does with unprotected helper names, gl_ and non-ASCII letters
-		{name: "suspects", cfg: namerCfg(three, []string{"a", "_", "n", "g", "e", "h"}, 2, c.Pick(1, 2), nil, true, nil), export: true, suspects: true},
+		{name: "suspects", cfg: namerCfg(three, []string{"a", "_", "n", "g", "e", "h", "K"}, 2, c.Pick(1, 2), nil, true, nil), export: true, suspects: true},
 	}
 	if !c.Quick() {
 		runs = append(runs,
@@ -132,7 +137,7 @@ func c16Namer(c *core.Ctx) (sets [][]string, suspects []c16NamerLine, exact []c1
 			faultsSeen++
 			if r.selftest {
 				var st map[string]bool
-				if len(res.Printed) == 0 || json.Unmarshal([]byte(res.Printed[0]), &st) != nil || len(st) < 7 {
+				if len(res.Printed) == 0 || json.Unmarshal([]byte(res.Printed[0]), &st) != nil || len(st) < 8 {
 					c.BrokenF("Namer.tla self-test: SelfTest was not printed\n%s", res.Tail(12))
 					good = false
 					return
